@@ -33,7 +33,7 @@ def check(ctx):
     ctx.rule("R04.1", "every block (r,c,v) of psi_gradient/psi_laplacian is gauge covariant: v[U->U X0/X1] * X_c == X_r * v", 16)
     ctx.rule("R04.2", "supercurrent is Im(conj(psi_e0) (G psi)_k) and is unchanged by the gauge transformation", 4)
     ctx.rule("R04.3", "the link variable is exp(-i A.(r_e1 - r_e0)) in builder and refresh alike", 4)
-    ctx.rule("R04.4", "a constant shift of mu multiplies psi' by a global phase and leaves |psi'|^2 unchanged", 2)
+    ctx.rule("R04.4", "a constant shift of mu multiplies psi' by a global phase and leaves |psi'|^2 unchanged (generic gamma and gamma = 0)", 3)
     ctx.rule("R04.5", "covariant operators are written only by MeshOperators.__init__/set_link_exponents; the solver passes A_applied (+A_induced)", 3)
     ctx.rule("R04.9", "the operator builders never write into the link-exponent / vector-potential arrays they are handed (shared effect rule)", 1)
     ctx.rule("R04.8", "a gauge-transformed potential always reaches the operators: set_link_exponents never skips the refresh on a comparison with a "
@@ -113,6 +113,24 @@ def check(ctx):
     ctx.ob("R04.4", "|psi'|^2(mu + c) == |psi'|^2(mu)", x2 == ret[1], where=f.fq,
            construct="temporal link invariance of |psi|^2", loc=loc(f, f.node),
            message="|psi'|^2 depends on a constant shift of mu", consequence="mu is observable beyond differences")
+    # the same two statements in the special case gamma = 0 (z = 0: a code path of its own wherever the update tests for it)
+    try:
+        f0, ip0, ret0, S0, _ = interpret_update(repo, gamma_zero=True)
+        T0 = S0["T"]
+        Ut0 = T0.unit_of(-(S0["mu"] * S0["dt"]))
+        (tname0,) = list(Ut0.atoms())
+        Ta0 = Rat.atom(T0, tname0)
+        Xc0 = T0.unit("Xc")
+        sub0 = {tname0: Ta0 * (Xc0 if Ta0 == Ut0 else Xc0 ** -1)}
+        ok0 = ret0[0].subst(sub0) == Xc0 * ret0[0] and ret0[1].subst(sub0) == ret0[1]
+        det0 = {"psi'": str(ret0[0])[:300]}
+    except Exception as e_:
+        ok0, det0 = False, {"error": str(e_)[:200]}
+    ctx.ob("R04.4", "at gamma = 0: psi'(mu + c) == exp(-i c dt) psi'(mu) and |psi'|^2 unchanged", ok0, detail=det0, where=f.fq,
+           construct="temporal link covariance at gamma = 0", loc=loc(f, f.node),
+           message=f"with gamma = 0 a constant shift of mu does not act on psi' as a global phase: {det0}",
+           consequence="for a layer with gamma = 0 the additive constant of the scalar potential (arbitrary: the Poisson problem is pure Neumann) changes |psi| and "
+                       "the currents: two gauge-equivalent runs diverge")
     # R04.5 -------------------------------------------------------------------------
     writers = {}
     for fi in repo.all_functions():
